@@ -1099,7 +1099,13 @@ def get_command_instance(
     """
     cname = "%sCommand" % name.lower().capitalize()
     gl = globals()
-    condition = cname not in gl
+    condition = (
+        cname not in gl
+        or not isinstance(gl[cname], type)
+        or not issubclass(gl[cname], Command)
+        or getattr(gl[cname], "args_definition", None) is None
+        or getattr(gl[cname], "_type", None) is None
+    )
     if condition:
         raise UnknownCommand(name)
     condition = (
